@@ -25,6 +25,8 @@ pub struct LiveRig {
     tx: tokio::sync::watch::Sender<ObservableInstanceState>,
     pub exp: Exporter,
     sock: PathBuf,
+    /// the observer task was started between these two instants
+    spawned: (std::time::Instant, std::time::Instant),
 }
 
 fn instance_of(st: &MState) -> Option<ObservableInstanceState> {
@@ -42,14 +44,16 @@ impl LiveRig {
         let rt = tokio::runtime::Builder::new_multi_thread().worker_threads(1).enable_all().build().ok()?;
         let (tx, rx) = tokio::sync::watch::channel(instance_of(first)?);
         // the daemon's own observer task
+        let before = std::time::Instant::now();
         rt.block_on(async { statime_linux::observer::spawn(&config, rx).await });
+        let after = std::time::Instant::now();
         // wait for the socket
         let t0 = std::time::Instant::now();
         while !sock.exists() && t0.elapsed() < Duration::from_secs(5) {
             std::thread::sleep(Duration::from_millis(5));
         }
         let exp = Exporter::start(workdir, &sock);
-        Some(LiveRig { rt, tx, exp, sock })
+        Some(LiveRig { rt, tx, exp, sock, spawned: (before, after) })
     }
 
     /// publishes the state the way `main.rs` does and scrapes the exporter; returns the op line for the model (the
@@ -58,7 +62,9 @@ impl LiveRig {
     pub fn scrape(&mut self, st: &MState) -> Option<(String, String, Vec<(String, String)>)> {
         let inst = instance_of(st)?;
         self.tx.send(inst).ok()?;
+        let lo = self.spawned.1.elapsed().as_secs_f64();
         let reply = http::get(self.exp.port, Duration::from_secs(3));
+        let hi = self.spawned.0.elapsed().as_secs_f64();
         let obs = match &reply {
             Reply::Bytes(b) => format!("resp {}", escape_line(b)),
             Reply::Timeout(b) => format!("timeout {}", escape_line(b)),
@@ -80,7 +86,14 @@ impl LiveRig {
             .and_then(|l| l.rsplit(' ').next())
             .and_then(|v| v.parse::<f64>().ok());
         st2.uptime = up.unwrap_or(0.0);
-        let findings = judge(&st2, &reply);
+        let mut findings = judge(&st2, &reply);
+        // "uptime ... in seconds": the observer was spawned between `spawned.0` and `spawned.1` (its task may start a
+        // little later under load: a quarter of a second of slack below)
+        if let Some(u) = up {
+            if !(u >= lo - 0.25 && u <= hi + 0.005) {
+                findings.push(("uptime-not-the-time-running".into(), format!("statime_uptime_seconds = {u}, the observer task has been running between {lo:.3} and {hi:.3} s")));
+            }
+        }
         Some((st2.op(), obs, findings))
     }
 
